@@ -2,6 +2,7 @@
 // Decides (tagged): C15 C01 C02 C03 C04 C06 C12 C18(a).
 //   VF_OP   ctor_range | assign_range | insert_range | append_range | ctor_count | ctor_count_val | ctor_gen | ctor_il
 //   VF_ITK  0 input (single pass, strict)   1 forward   2 random access   3 raw pointer (contiguous)
+#include "vf_pre.hpp"
 #include "vf.hpp"
 
 #ifndef VF_ELEM
@@ -128,6 +129,13 @@ extern "C" void vf_main(void) {
 #ifdef VF_BIGLEN
   // a range far longer than an 8-bit size type can count: length = 256*k + r with r <= VF_LEN (only random-access / counting ranges: no element is touched by a correct implementation)
   vf_assume(len >= 256 && len < 65536 && (len & 255u) <= VF_LEN);
+#elif defined(VF_MIDLEN)
+  // a counting range longer than max_size() allows from this state but still representable in an 8-bit size type (size()+length may wrap at 256)
+#if VF_OP == OP_insert_range || VF_OP == OP_append_range
+  vf_assume(len <= 255 && (uint64_t)len + size > (uint64_t)V(A(7)).max_size());
+#else
+  vf_assume(len <= 255 && (uint64_t)len > (uint64_t)V(A(7)).max_size());
+#endif
 #else
   vf_assume(len <= VF_LEN);
 #endif
